@@ -65,6 +65,7 @@ from .annotationparser import (
     OPT_ARRAY_FIXED_SIZE,
     OPT_ARRAY_LENGTH,
     OPT_ARRAY_ZERO_TERMINATED,
+    OPT_NOT_OPTIONAL,
     OPT_OUT_CALLEE_ALLOCATES,
     OPT_OUT_CALLER_ALLOCATES,
     OPT_TRANSFER_CONTAINER,
@@ -815,10 +816,14 @@ class MainTransformer(object):
                  node.type.target_giname == 'Gio.Cancellable')):
             node.nullable = True
 
-        # Final override for nullability
-        if ANN_NOT in annotations:
-            node.nullable = False
-            node.not_nullable = True
+        # Final override for nullability and optionality
+        not_annotation = annotations.get(ANN_NOT)
+        if not_annotation is not None:
+            if OPT_NOT_OPTIONAL in not_annotation:
+                node.optional = False
+            else:
+                node.nullable = False
+                node.not_nullable = True
 
         if tag and tag.description:
             node.doc = tag.description
